@@ -149,8 +149,9 @@ def _inner_bound_names(e, seen=None, out=None):
             continue
         seen.add(x.get_id())
         if z3.is_quantifier(x):
-            for i in range(x.num_vars()):
-                out.add(x.var_name(i))
+            if not x.is_lambda():  # a lambda applied to the outer variable re-uses the name harmlessly
+                for i in range(x.num_vars()):
+                    out.add(x.var_name(i))
             todo.append(x.body())
         else:
             todo.extend(x.children())
